@@ -1,6 +1,7 @@
 import PegVerif.Proofs.DeclProofs
 import PegVerif.Proofs.Plumbing
 import PegVerif.Proofs.PathMatches
+import PegVerif.Proofs.NonVacuity
 /-
   C03 – generated types follow the documented field/arity mapping and always compile.
 
@@ -74,5 +75,76 @@ theorem C03_values_have_declared_shape (env : Env) (n : Nat) {r0 : Rule} {fields
 /-- soundness of the arity analysis: on every successful path the number of matches of a field
     respects its arity (One: exactly one, Optional: at most one) -/
 theorem C03_arity_sound (env : Env) (u : Nat) : ∀ n, PM.PGoodE env (PM.eval env u n).expr := PM.eval_pgood env u
+
+/-! ## non-vacuity (BEGIN) -/
+namespace C03_nv
+open Peg.NV
+
+/-! the tables: one non-diagonal arm, and the join reading of it -/
+example : ("One", "Multiple", "Multiple") ∈ Extracted.combineChoiceArms := C03_choice_table_complete .one .multiple
+example : (combineChoice .optional .multiple).rank = max Arity.optional.rank Arity.multiple.rank :=
+  C03_choice_is_join .optional .multiple
+example : toOptional .one = combineChoice .one .optional := C03_optional_is_join .one
+example : "type" ∈ Extracted.rustKeywords := C03_keywords_cover_reference "type" (by decide)
+
+/-! the documented mapping on the descriptors of the running example and of a left-recursive rule
+    (`first:Num` Optional, `rest:Num` Multiple, a boxed `l:*E`, a two-type field `v:X|Y`, a keyword type name) -/
+def kws : List String := Extracted.rustKeywords
+def fFirst : FieldDesc := ⟨"first", [("Num", false)], .optional⟩
+def fRest : FieldDesc := ⟨"rest", [("Num", false)], .multiple⟩
+def fOne : FieldDesc := ⟨"x", [("type", false)], .one⟩
+def fBox : FieldDesc := ⟨"l", [("E", true)], .optional⟩
+def fEnum : FieldDesc := ⟨"v", [("X", false), ("Y", false)], .multiple⟩
+
+example : fieldTypeText kws "S" fFirst = "Option<" ++ innerTypeText kws "S" fFirst ++ ">" := C03_option rfl
+example : fieldTypeText kws "S" fRest = "Vec<" ++ innerTypeText kws "S" fRest ++ ">" := C03_vec rfl
+example : fieldTypeText kws "S" fOne = innerTypeText kws "S" fOne := C03_plain rfl
+example : innerTypeText kws "S" fFirst = safeIdent kws "Num" := C03_no_box rfl (by decide)
+example : innerTypeText kws "E" fBox = "Box<" ++ safeIdent kws "E" ++ ">" := C03_box rfl (by decide)
+example : innerTypeText kws "R" fEnum = "R" ++ "_" ++ "v" := C03_enum (by decide)
+/-- … and what these texts are -/
+example : fieldTypeText kws "S" fFirst = "Option<Num>" ∧ fieldTypeText kws "S" fRest = "Vec<Num>" ∧
+    fieldTypeText kws "S" fOne = "r#type" ∧ fieldTypeText kws "E" fBox = "Option<Box<E>>" ∧
+    fieldTypeText kws "R" fEnum = "Vec<R_v>" := by decide +kernel
+
+/-! `C03_plumbing_never_goes_wrong` on the running example (`"1 + 23"`) -/
+theorem run_some : (parseAdvanced env0 20 "S" inp1 0).isSome = true := by decide
+example : ∀ m, ((parseAdvanced env0 20 "S" inp1 0).get run_some).1 ≠ .panic ("codegen: " ++ m) :=
+  C03_plumbing_never_goes_wrong env0 20 "S" inp1 0 (run_eq run_some)
+
+/-! `C03_values_have_declared_shape`: the definition of `S` with `@memoize Num`, started from a NON-empty clean
+    cache (the entry of `Num` at offset 0), so the first field is answered from the cache -/
+def envM : Env := envWith [] [.memoize] default
+def fieldsS : List FieldDesc := ownFields envM (ruleS []).definition
+def g1 : Global := (Global.init 0).insert ("Num", 0) (.ok (.str [49]) ⟨inp1.drop 1, 1, none⟩)
+
+example : fieldsS = [⟨"first", [("Num", false)], .optional⟩, ⟨"rest", [("Num", false)], .multiple⟩,
+    ⟨"word", [("Word", false)], .optional⟩] := by decide
+theorem hget : getFields envM.g envM.nf (ruleS []).definition = .ok fieldsS := getFields_ok_of (by decide)
+theorem g1_clean : CleanCache g1 := by
+  intro kv h
+  simp only [g1, Global.insert, Global.init, List.mem_cons, List.not_mem_nil, or_false] at h
+  subst h; exact not_isCg_ok _ _
+theorem def_some : ((eval envM 20).expr ⟨true, fieldsS⟩ (ruleS []).definition (St.new inp1) g1).isSome = true := by decide
+
+example : ∀ p s', (((eval envM 20).expr ⟨true, fieldsS⟩ (ruleS []).definition (St.new inp1) g1).get def_some).1 = .ok p s' →
+    Shaped fieldsS p :=
+  C03_values_have_declared_shape envM 20 true hget g1_clean (run_eq def_some)
+
+/-- the run is a success with one entry per field in order, and the cache entry was used -/
+example : (match (eval envM 20).expr ⟨true, fieldsS⟩ (ruleS []).definition (St.new inp1) g1 with
+    | some (.ok p s, g) => p.map (fun kv => (kv.1, kv.2.render)) == [("first", "Some(S\"31\")"), ("rest", "[S\"3233\"]"), ("word", "None")]
+        && s.off == 6 && g.log.any (fun e => match e with | .info "Cache hit" => true | _ => false)
+    | _ => false) = true := by decide
+
+/-! `C03_arity_sound` at the definition of `S`: the matches of the path respect the local analysis -/
+example : ∃ ms s', (PM.eval envM 0 20).expr ⟨true, fieldsS⟩ (ruleS []).definition (St.new inp1) = some (.ok ms s') ∧
+    PathOk fieldsS ms := by
+  obtain ⟨ms, s', h, -⟩ := sok_of (o := (PM.eval envM 0 20).expr ⟨true, fieldsS⟩ (ruleS []).definition (St.new inp1))
+    (fun ms _ => ms.length == 2) (by decide)
+  exact ⟨ms, s', h, C03_arity_sound envM 0 20 _ _ _ _ _ _ hget h⟩
+
+end C03_nv
+/-! ## non-vacuity (END) -/
 
 end Peg.Props
